@@ -58,6 +58,10 @@ const uint32 maskl[33] = {0x00000000, 0x00000001, 0x00000003, 0x00000007, 0x0000
 /* Whether we've installed the library termination function yet for this interface */
 static int library_terminate = FALSE;
 
+/* 'block_offset' of a bitfile record whose buffer has to be fetched again:
+   no byte offset of an element lies inside the block which starts there */
+#define BITBLOCK_NONE (-(int32)BITBUF_SIZE - 1)
+
 /* Local Function Declarations */
 static bitrec_t *HIget_bitfile_rec(void);
 
@@ -577,9 +581,12 @@ Hbitseek(int32 bitid, int32 byte_offset, int bit_offset)
         bitfile_rec->bytez        = n + (bitfile_rec->bytep = bitfile_rec->bytea);
         bitfile_rec->buf_read     = n; /* keep track of the number of bytes in buffer */
         bitfile_rec->block_offset = seek_pos;
-        if (bitfile_rec->mode == 'w') /* if writing, return the file offset to it's original position */
+        if (bitfile_rec->mode == 'w') { /* if writing, return the file offset to it's original position */
             if (Hseek(bitfile_rec->acc_id, seek_pos, DF_START) == FAIL)
                 HRETURN_ERROR(DFE_SEEKERROR, FAIL);
+            /* the whole buffer can be filled before it has to be written */
+            bitfile_rec->bytez = bitfile_rec->bytea + BITBUF_SIZE;
+        }
     } /* end if */
 
     bitfile_rec->byte_offset = byte_offset;
@@ -826,10 +833,36 @@ static int
 HIread2write(bitrec_t *bitfile_rec)
 {
 
-    bitfile_rec->block_offset = (int32)LONG_MIN; /* set to bogus value */
-    bitfile_rec->mode         = 'w';             /* change to write mode */
-    if (Hbitseek(bitfile_rec->bit_id, bitfile_rec->byte_offset, ((int)BITNUM - bitfile_rec->count)) == FAIL)
+    int32 byte_offset; /* the byte which holds the next bit */
+    int   bit_offset;  /* number of bits of that byte which have been read */
+
+    /* While reading, 'bytep' is the next byte to fetch from the buffer and the
+       low 'count' bits of the byte fetched last are still to be delivered. */
+    byte_offset = bitfile_rec->block_offset + (int32)(bitfile_rec->bytep - bitfile_rec->bytea);
+    bit_offset  = 0;
+    if (bitfile_rec->count > 0) {
+        byte_offset--;
+        bit_offset = (int)BITNUM - bitfile_rec->count;
+    }
+
+    /* Nothing in the buffer has to go to the file: fetch the block again,
+       still as a reader, and only then start writing at that bit. */
+    bitfile_rec->block_offset = BITBLOCK_NONE;
+    if (Hbitseek(bitfile_rec->bit_id, byte_offset, bit_offset) == FAIL)
         HRETURN_ERROR(DFE_INTERNAL, FAIL);
+    if (Hseek(bitfile_rec->acc_id, bitfile_rec->block_offset, DF_START) == FAIL)
+        HRETURN_ERROR(DFE_SEEKERROR, FAIL);
+
+    bitfile_rec->mode  = 'w'; /* change to write mode */
+    bitfile_rec->bytez = bitfile_rec->bytea + BITBUF_SIZE;
+    if (bit_offset > 0) { /* keep the bits in front of the position */
+        bitfile_rec->bytep--;
+        bitfile_rec->bits &= (uint8)(maskc[bit_offset] << bitfile_rec->count);
+    }
+    else {
+        bitfile_rec->count = BITNUM;
+        bitfile_rec->bits  = 0;
+    }
     return SUCCEED;
 } /* HIread2write */
 
@@ -859,8 +892,8 @@ HIwrite2read(bitrec_t *bitfile_rec)
     if (HIbitflush(bitfile_rec, -1, TRUE) == FAIL) /* flush any leftover bits */
         HRETURN_ERROR(DFE_WRITEERROR, FAIL);
 
-    bitfile_rec->block_offset = (int32)LONG_MIN; /* set to bogus value */
-    bitfile_rec->mode         = 'r';             /* change to read mode */
+    bitfile_rec->block_offset = BITBLOCK_NONE; /* no block is buffered */
+    bitfile_rec->mode         = 'r';           /* change to read mode */
     if (Hbitseek(bitfile_rec->bit_id, prev_offset, ((int)BITNUM - prev_count)) == FAIL)
         HRETURN_ERROR(DFE_INTERNAL, FAIL);
     return SUCCEED;
